@@ -158,3 +158,76 @@ Theorem C19_view_to_array : forall (A : Type) (x : arr A) a i v,
                if inb (remove_axis a (ashape x)) idx' then get x (insert_axis a i idx') else None.
 Proof. exact to_array_spec. Qed.
 Print Assumptions C19_view_to_array.
+
+
+(* The 64-bit layer (Model/Word.v: usize arithmetic with checked, saturating and overflowing operations written out) under
+   the unbounded index model used by every theorem above: on every array that Array::new accepts, the word-level
+   computation of strides and flat positions never overflows and IS the model's. *)
+From Sfs Require Import Word WordP.
+Open Scope N_scope.
+(* Array::new never accepts on a wrapped product (F12) *)
+Theorem C19_word_array_new_sound : forall len sh, array_new_w len sh = true -> prodN sh = len /\ len <= wmax.
+Proof. exact array_new_w_sound. Qed.
+Print Assumptions C19_word_array_new_sound.
+
+Theorem C19_word_array_new_complete : forall len sh,
+  Forall (fun v => 0 < v) sh -> prodN sh = len -> len <= wmax -> array_new_w len sh = true.
+Proof. exact array_new_w_complete. Qed.
+Print Assumptions C19_word_array_new_complete.
+
+Theorem C19_word_overflowing_shape_rejected : forall sh, wmax < prodN sh -> elements_w 1 sh = None.
+Proof. exact elements_w_overflow. Qed.
+Print Assumptions C19_word_overflowing_shape_rejected.
+
+Theorem C19_word_empty_array_accepted : forall pre post,
+  Forall (fun v => 0 < v) pre -> prodN pre <= wmax -> array_new_w 0 (pre ++ 0 :: post) = true.
+Proof. exact array_new_w_zero_axis. Qed.
+Print Assumptions C19_word_empty_array_accepted.
+
+(* Shape::strides never overflows, whatever the shape (F22), and is exact on every non-empty accepted array *)
+Theorem C19_word_strides_fit : forall sh, Forall (fun s => s <= wmax) (strides_w sh).
+Proof. exact strides_w_fit. Qed.
+Print Assumptions C19_word_strides_fit.
+
+Theorem C19_word_strides_exact : forall sh,
+  Forall (fun v => 0 < v) sh -> prodN sh <= wmax -> strides_w sh = stridesN sh.
+Proof. exact strides_w_exact. Qed.
+Print Assumptions C19_word_strides_exact.
+
+Theorem C19_word_strides_unrepaired_overflow_refuted :
+  array_new_w 0 [0; wmax; 2] = true /\ chkprod [wmax; 2] = None /\ strides_w [0; wmax; 2] = [wmax; 2; 1].
+Proof. exact strides_unrepaired_overflow_refuted. Qed.
+Print Assumptions C19_word_strides_unrepaired_overflow_refuted.
+
+(* Strides::flat_index on an accepted array: never an overflow, inside the data, the row-major position *)
+Theorem C19_word_flat_index_exact : forall len sh idx,
+  array_new_w len sh = true ->
+  flat_index_w (strides_w sh) sh idx =
+    if Nat.eqb (length sh) (length idx) && all_ltN idx sh then WSome (flatN sh idx) else WNone.
+Proof. exact flat_index_w_exact. Qed.
+Print Assumptions C19_word_flat_index_exact.
+
+Theorem C19_word_flat_index_in_data : forall len sh idx f,
+  array_new_w len sh = true -> flat_index_w (strides_w sh) sh idx = WSome f -> f < len.
+Proof. exact flat_index_w_in_data. Qed.
+Print Assumptions C19_word_flat_index_in_data.
+
+Theorem C19_word_flat_index_never_overflows : forall len sh idx,
+  array_new_w len sh = true -> flat_index_w (strides_w sh) sh idx <> WOverflow.
+Proof. exact flat_index_w_never_overflows. Qed.
+Print Assumptions C19_word_flat_index_never_overflows.
+
+(* ... and it is Index.flat_index, the function all the theorems above are about *)
+Theorem C19_word_refines_index_model : forall len (sh idx : list nat),
+  array_new_w len (map N.of_nat sh) = true ->
+  flat_index_w (strides_w (map N.of_nat sh)) (map N.of_nat sh) (map N.of_nat idx) =
+    match flat_index (strides sh) sh idx with Some f => WSome (N.of_nat f) | None => WNone end.
+Proof. exact flat_index_w_refines. Qed.
+Print Assumptions C19_word_refines_index_model.
+
+Example C19_word_examples :
+  array_new_w 24 [2; 3; 4] = true /\ strides_w [2; 3; 4] = [12; 4; 1] /\
+  flat_index_w (strides_w [2; 3; 4]) [2; 3; 4] [1; 2; 3] = WSome 23 /\
+  array_new_w 0 [4294967296; 4294967296] = false /\ array_new_w 0 [9223372036854775808; 4; 0] = false.
+Proof. exact word_examples. Qed.
+Close Scope N_scope.
